@@ -2,18 +2,25 @@
 //!
 //! input  = (cfg files perms dfile segs queries)
 //!   cfg     = (chars cg max_size? max_seq? threads)
-//!   files   = list of (final_newline lines); line = (raw words); word = (parts clusters offs)
+//!   files   = list of (fbytes lines); fbytes = the BYTES written to disk (any bytes: invalid UTF-8, BOM, NUL, CR LF,
+//!             no final newline); lines = what a lossy reading with the std gives (read_until(b'\n'), strip "\n" and
+//!             one "\r", String::from_utf8_lossy): line = (raw words); word = (parts clusters offs)
 //!             parts: byte strings of the regex matches of `split_words`, offs their byte offsets;
 //!             clusters: (bytes alpha punct) of `vh::split_clusters(word, true)`, all computed on
-//!             normalize(clean(raw)) by the real crate.  Since the UCD extension the model computes all of
-//!             this from `raw` itself (C20_Words.v); the words are a cross-check inside `agree`.
+//!             normalize(clean(raw)) by the real crate.  The model reads the lines from fbytes itself
+//!             (C20_Bytes.v) and computes the words from them (C20_Words.v); lines and words are cross-checks inside
+//!             `agree`.  An old-format file `(final_newline lines)` is still accepted by `canon` (corpus).
 //!   perms   = (arrival_picks heap_picks)       arbitrary orders for the model (the code's are unobservable)
-//!   dfile   = bytes of a dictionary file for `load`
-//!   segs    = grapheme segmentation (byte strings) of every candidate key of dfile
-//!   queries = list of (raw norm nq qclusters)   nq = normalize(raw, NFKC), qclusters its graphemes
+//!   dfile   = bytes of a dictionary file for `load` (any bytes)
+//!   segs    = grapheme segmentation (byte strings) of every candidate key of dfile (cross-check; the model segments
+//!             the keys itself)
+//!   queries = list of (raw norm nq qclusters)   nq = normalize(raw, NFKC), qclusters its graphemes (cross-checks; the
+//!             model normalises and segments the raw query itself)
 //!   probes  = optional 7th field: list of (text words): `words` as above but computed on `text` itself
 //!             (no clean, no normalisation) — the class probes that sweep all scalar values
-//! output = (creates reload loaded answers), see C20_Model.v
+//! output = (creates reload loaded answers), see C20_Model.v; answers (C20_Float.v) = per query (get? closest? dists):
+//!   get? = () | ((freq rel)), closest? = () | ((word freq rel)), rel = the returned f64 as `to_bits` fields;
+//!   dists = the first 256 values of the call `get_closest` makes (`edit::distances`, keys in `items()` order)
 use std::collections::HashMap;
 use std::path::PathBuf;
 use text_utils::dictionary::{Dictionary, DictionaryDistanceMeasure};
@@ -27,10 +34,10 @@ struct Raw {
     max_size: Option<usize>,
     max_seq: Option<usize>,
     threads: Vec<usize>,
-    files: Vec<(bool, Vec<String>)>,
+    files: Vec<Vec<u8>>,
     arr: Vec<usize>,
     hp: Vec<usize>,
-    dfile: String,
+    dfile: Vec<u8>,
     queries: Vec<(String, bool)>,
     probes: Vec<String>,
 }
@@ -62,6 +69,72 @@ fn opt_usize(v: &Val) -> Option<Option<usize>> {
 
 fn usizes(v: &Val) -> Option<Vec<usize>> {
     v.as_l()?.iter().map(|x| x.as_usize()).collect()
+}
+
+/// an f64 as the fields of `to_bits` (same as c12.rs / C12_Float.fl_v)
+fn f64_val(x: f64) -> Val {
+    let bits = x.to_bits();
+    let s = (bits >> 63) as i64;
+    let exp = ((bits >> 52) & 0x7ff) as i64;
+    let frac = (bits & ((1u64 << 52) - 1)) as i64;
+    let l = |k: i64, s: i64, m: i64, e: i64| Val::L(vec![Val::I(k), Val::I(s), Val::I(m), Val::I(e)]);
+    if exp == 0x7ff {
+        if frac == 0 {
+            l(2, s, 0, 0)
+        } else {
+            l(3, 0, 0, 0)
+        }
+    } else if exp == 0 {
+        if frac == 0 {
+            l(0, s, 0, 0)
+        } else {
+            l(1, s, frac, -1074)
+        }
+    } else {
+        l(1, s, frac | (1i64 << 52), exp - 1075)
+    }
+}
+
+/// The lines of a file by a lossy reading made of std pieces only (`read_until(b'\n')`, strip "\n" and one "\r"
+/// before it, `String::from_utf8_lossy`) — independent of the crate's readers; the model's reading of the bytes
+/// (Lines_Model.lossy_lines) must give the same lines.
+fn lossy_lines(bytes: &[u8]) -> Vec<String> {
+    use std::io::BufRead;
+    let mut rd = std::io::BufReader::with_capacity(64, bytes);
+    let mut out = vec![];
+    loop {
+        let mut buf = vec![];
+        match rd.read_until(b'\n', &mut buf) {
+            Ok(0) | Err(_) => break,
+            Ok(_) => {
+                if buf.last() == Some(&b'\n') {
+                    buf.pop();
+                    if buf.last() == Some(&b'\r') {
+                        buf.pop();
+                    }
+                }
+                out.push(String::from_utf8_lossy(&buf).into_owned());
+            }
+        }
+    }
+    out
+}
+
+/// does `BufRead::lines` (the strict reader) meet a line that is not UTF-8?
+fn has_invalid_line(bytes: &[u8]) -> bool {
+    use std::io::BufRead;
+    std::io::BufReader::new(bytes).lines().any(|l| l.is_err())
+}
+
+fn join_lines(lines: &[String], final_nl: bool) -> Vec<u8> {
+    let mut s = String::new();
+    for (i, l) in lines.iter().enumerate() {
+        s.push_str(l);
+        if final_nl || i + 1 < lines.len() {
+            s.push('\n');
+        }
+    }
+    s.into_bytes()
 }
 
 impl C20 {
@@ -127,12 +200,12 @@ impl C20 {
             Val::list(r.threads.iter(), |t| Val::u(*t)),
         ]);
         let mut files = vec![];
-        for (nl, lines) in &r.files {
-            let ls: Vec<Val> = lines
+        for fb in &r.files {
+            let ls: Vec<Val> = lossy_lines(fb)
                 .iter()
                 .map(|raw| Val::L(vec![Val::str(raw), self.line_oracle(raw)]))
                 .collect();
-            files.push(Val::L(vec![Val::b(*nl), Val::L(ls)]));
+            files.push(Val::L(vec![Val::bytes(fb), Val::L(ls)]));
         }
         let perms = Val::L(vec![
             Val::list(r.arr.iter(), |t| Val::u(*t)),
@@ -140,11 +213,13 @@ impl C20 {
         ]);
         // candidate keys of the dictionary file: first tab-separated field of every trimmed line
         let mut segs: Vec<Val> = vec![];
-        for line in r.dfile.split('\n') {
-            let key = line.trim().split('\t').next().unwrap_or("");
-            let seg = Val::L(vh::split_clusters(key, true).map(bytes).collect());
-            if !segs.contains(&seg) {
-                segs.push(seg);
+        if let Ok(dtext) = std::str::from_utf8(&r.dfile) {
+            let mut seen = std::collections::HashSet::new();
+            for line in dtext.split('\n') {
+                let key = line.trim().split('\t').next().unwrap_or("");
+                if seen.insert(key) {
+                    segs.push(Val::L(vh::split_clusters(key, true).map(bytes).collect()));
+                }
             }
         }
         let queries: Vec<Val> = r
@@ -160,7 +235,7 @@ impl C20 {
                 ])
             })
             .collect();
-        let mut fields = vec![cfg, Val::L(files), perms, Val::bytes(r.dfile.as_bytes()), Val::L(segs), Val::L(queries)];
+        let mut fields = vec![cfg, Val::L(files), perms, Val::bytes(&r.dfile), Val::L(segs), Val::L(queries)];
         if !r.probes.is_empty() {
             let ps: Vec<Val> = r.probes.iter().map(|p| Val::L(vec![Val::str(p), self.words_oracle(p)])).collect();
             fields.push(Val::L(ps));
@@ -194,17 +269,25 @@ impl C20 {
             if f.len() != 2 {
                 return None;
             }
-            let mut lines = vec![];
-            for line in f[1].as_l()? {
-                let raw = line.nth(0)?.to_string_lossy()?;
-                if raw.contains('\n') {
-                    return None;
+            if let Some(bs) = f[0].as_l() {
+                // the bytes of the file; the lines are re-derived from them
+                let fb: Vec<u8> =
+                    bs.iter().map(|b| b.as_usize().and_then(|b| u8::try_from(b).ok())).collect::<Option<_>>()?;
+                files.push(fb);
+            } else {
+                // old format (corpus): (final_newline lines)
+                let mut lines = vec![];
+                for line in f[1].as_l()? {
+                    let raw = line.nth(0)?.to_string_lossy()?;
+                    if raw.contains('\n') {
+                        return None;
+                    }
+                    lines.push(raw);
                 }
-                lines.push(raw);
+                // an unterminated empty last line does not exist
+                let nl = f[0].as_bool()? || lines.last().map_or(true, |s| s.is_empty());
+                files.push(join_lines(&lines, nl));
             }
-            // an unterminated empty last line does not exist
-            let nl = f[0].as_bool()? || lines.last().map_or(true, |s| s.is_empty());
-            files.push((nl, lines));
         }
         let perms = l[2].as_l()?;
         if perms.len() != 2 {
@@ -212,12 +295,11 @@ impl C20 {
         }
         let arr = usizes(&perms[0])?;
         let hp = usizes(&perms[1])?;
-        let db: Vec<u8> = l[3]
+        let dfile: Vec<u8> = l[3]
             .as_l()?
             .iter()
             .map(|b| b.as_usize().and_then(|b| u8::try_from(b).ok()))
             .collect::<Option<_>>()?;
-        let dfile = String::from_utf8(db).ok()?;
         let mut queries = vec![];
         for q in l[5].as_l()? {
             queries.push((q.nth(0)?.to_string_lossy()?, q.nth(1)?.as_bool()?));
@@ -233,16 +315,9 @@ impl C20 {
 
     fn write_files(&self, r: &Raw) -> Vec<PathBuf> {
         let mut paths = vec![];
-        for (k, (nl, lines)) in r.files.iter().enumerate() {
-            let mut s = String::new();
-            for (i, l) in lines.iter().enumerate() {
-                s.push_str(l);
-                if *nl || i + 1 < lines.len() {
-                    s.push('\n');
-                }
-            }
+        for (k, fb) in r.files.iter().enumerate() {
             let p = self.dir.join(format!("f{k}.txt"));
-            std::fs::write(&p, s).expect("write corpus file");
+            std::fs::write(&p, fb).expect("write corpus file");
             paths.push(p);
         }
         paths
@@ -278,7 +353,10 @@ const QUERIES: &[&str] = &[
     "a", "b", "ab", "ba", "abc", "acb", "bca", "ac", "abd", "bd", "", "é", "e\u{301}", "ﬁ", "xyz", "ｂ", "a b",
     "aé", "abcd", "c", "cba", "🇩🇪🇫", "क्", "\u{1100}\u{1161}",
 ];
-const FREQS: &[usize] = &[0, 1, 1, 2, 2, 3, 3, 5, 10, 1000, 1 << 40];
+// the last four are above 2^53: `usize as f64` rounds (ties to even); sums of at most 7 of them stay below 2^62
+const FREQS: &[usize] = &[
+    0, 1, 1, 2, 2, 3, 3, 5, 10, 1000, 1 << 40, (1 << 53) + 1, (1 << 53) + 3, (1 << 58) + 12345, (1 << 57) + 64,
+];
 
 /// units for the class probes: letters, digits of several scripts (Nd is \w but not in the word class),
 /// other numbers, marks, connector punctuation, join controls, punctuation of every subcategory, symbols,
@@ -417,6 +495,177 @@ fn gen_dfile(rng: &mut Rng) -> String {
     s
 }
 
+/// byte sequences that are not UTF-8: bare continuation, impossible bytes, truncated sequences (at the end of a line
+/// or before an ASCII byte), overlong form, surrogate, above U+10FFFF
+const INVALID: &[&[u8]] = &[
+    &[0xFF],
+    &[0x80],
+    &[0xC3],
+    &[0xC0, 0x80],
+    &[0xED, 0xA0, 0x80],
+    &[0xF0, 0x9F, 0x92],
+    &[0xF5, 0x80, 0x80, 0x80],
+    &[0xE2, 0x82],
+    &[0xF4, 0x90, 0x80, 0x80],
+    &[0xA9, 0xC3],
+];
+
+fn insert_at(b: &mut Vec<u8>, pos: usize, ins: &[u8]) {
+    let pos = pos.min(b.len());
+    let tail = b.split_off(pos);
+    b.extend_from_slice(ins);
+    b.extend_from_slice(&tail);
+}
+
+/// a position that is a character boundary of the (so far valid) text, so that what is inserted stays what it is
+fn boundary(rng: &mut Rng, b: &[u8]) -> usize {
+    let mut pos = rng.below(b.len() + 1);
+    while pos < b.len() && (b[pos] & 0xC0) == 0x80 {
+        pos += 1;
+    }
+    pos
+}
+
+/// Byte-level decorations of a corpus file: what a text file on disk can look like beyond "lines joined by \n".
+/// Returns the tag of the decoration.
+fn decorate(rng: &mut Rng, fb: &mut Vec<u8>) -> &'static str {
+    match rng.below(14) {
+        0 => {
+            // CR LF everywhere
+            let mut out = vec![];
+            for &x in fb.iter() {
+                if x == b'\n' {
+                    out.push(b'\r');
+                }
+                out.push(x);
+            }
+            *fb = out;
+            "crlf"
+        }
+        1 => {
+            // CR LF on some lines, a lone CR inside others
+            let mut out = vec![];
+            for &x in fb.iter() {
+                if x == b'\n' && rng.chance(1, 2) {
+                    out.push(b'\r');
+                    if rng.chance(1, 4) {
+                        out.push(b'\r');
+                    }
+                }
+                if x == b' ' && rng.chance(1, 6) {
+                    out.push(b'\r');
+                }
+                out.push(x);
+            }
+            *fb = out;
+            "crlf"
+        }
+        2 => {
+            insert_at(fb, 0, &[0xEF, 0xBB, 0xBF]);
+            "bom"
+        }
+        3 => {
+            let pos = boundary(rng, fb);
+            insert_at(fb, pos, &[0]);
+            if rng.chance(1, 2) {
+                let pos = boundary(rng, fb);
+                insert_at(fb, pos, &[0]);
+            }
+            "nul"
+        }
+        4..=6 => {
+            // one to three invalid sequences inside the text
+            for _ in 0..rng.range(1, 4) {
+                let pos = boundary(rng, fb);
+                let ins = *rng.pick(INVALID);
+                insert_at(fb, pos, ins);
+            }
+            "inv"
+        }
+        7 => {
+            // an invalid line of its own: at the start, at a line boundary, or at the end (with / without newline)
+            let ins: &[u8] = *rng.pick(&[&b"\xff\n"[..], &b"\xc3\n"[..], &b"a\x80b\n"[..], &b"\xff"[..]]);
+            match rng.below(3) {
+                0 => insert_at(fb, 0, ins),
+                1 => {
+                    let nls: Vec<usize> = (0..fb.len()).filter(|i| fb[*i] == b'\n').collect();
+                    let pos = if nls.is_empty() { fb.len() } else { nls[rng.below(nls.len())] + 1 };
+                    insert_at(fb, pos, ins);
+                }
+                _ => {
+                    if fb.last().map_or(false, |x| *x != b'\n') {
+                        fb.push(b'\n');
+                    }
+                    fb.extend_from_slice(ins);
+                }
+            }
+            "inv"
+        }
+        8 => {
+            // a lone CR at the very end (no LF), or the final newline doubled (an empty last line)
+            if rng.chance(1, 2) {
+                fb.push(b'\r');
+            } else {
+                fb.push(b'\n');
+            }
+            "eol"
+        }
+        9 => {
+            // the final newline removed (possibly leaving "...\r")
+            if fb.last() == Some(&b'\n') {
+                fb.pop();
+            }
+            "eol"
+        }
+        10 => {
+            // byte soup
+            let alpha: &[&[u8]] =
+                &[b"a", b"b", b" ", b"\n", b"\n", b"\r", b"\r\n", &[0xFF], &[0xC3], &[0xC3, 0xA9], &[0], &[0xEF, 0xBB, 0xBF], b"ab"];
+            let mut out = vec![];
+            for _ in 0..rng.below(14) {
+                out.extend_from_slice(*rng.pick(alpha));
+            }
+            *fb = out;
+            "soup"
+        }
+        11 => {
+            *fb = rng.pick(&[&b""[..], &b"\n"[..], &b"\r\n"[..], &b"\r"[..], &b"\n\n"[..], &b" "[..], &b"\xef\xbb\xbf"[..]]).to_vec();
+            "tiny"
+        }
+        12 => {
+            // a very long line (longer than the 8 KiB buffer of BufReader), ending the file or not
+            if rng.chance(1, 3) {
+                let n = rng.range(8100, 8300) + if rng.chance(1, 3) { rng.range(0, 9000) } else { 0 };
+                let mut line = vec![];
+                let ws: &[&[u8]] = &[b"ab", b"a", b"b", "é".as_bytes(), b"ba", b"c"];
+                while line.len() < n {
+                    line.extend_from_slice(*rng.pick(ws));
+                    line.push(b' ');
+                }
+                if rng.chance(1, 3) {
+                    let pos = boundary(rng, &line);
+                    insert_at(&mut line, pos, &[0xFF]);
+                }
+                line.push(b'\n');
+                let nls: Vec<usize> = (0..fb.len()).filter(|i| fb[*i] == b'\n').collect();
+                let pos = if nls.is_empty() { 0 } else { nls[rng.below(nls.len())] + 1 };
+                insert_at(fb, pos, &line);
+                "longline"
+            } else {
+                "plain"
+            }
+        }
+        _ => {
+            // an invalid sequence directly before a line end / at the end of the file (truncated character)
+            let nls: Vec<usize> = (0..fb.len()).filter(|i| fb[*i] == b'\n').collect();
+            let pos = if nls.is_empty() || rng.chance(1, 3) { fb.len() } else { nls[rng.below(nls.len())] };
+            let ins = *rng.pick(INVALID);
+            insert_at(fb, pos, ins);
+            "inv"
+        }
+    }
+}
+
 fn gen_raw(rng: &mut Rng, tier: Tier) -> Raw {
     let edge = rng.chance(15, 100);
     let (chars, cg) = match rng.below(20) {
@@ -474,7 +723,16 @@ fn gen_raw(rng: &mut Rng, tier: Tier) -> Raw {
         files = vec![(true, lines)];
         plateau_k = k;
     }
-    let total: usize = files.iter().map(|f| f.1.len()).sum();
+    // the bytes on disk; outside the plateau stream one file in four gets a byte-level decoration
+    let mut files: Vec<Vec<u8>> = files.iter().map(|(nl, lines)| join_lines(lines, *nl)).collect();
+    if !plateau {
+        for fb in files.iter_mut() {
+            if rng.chance(1, 4) {
+                decorate(rng, fb);
+            }
+        }
+    }
+    let total: usize = files.iter().map(|fb| lossy_lines(fb).len()).sum();
     let max_size = match rng.below(20) {
         0..=3 => None,
         4..=5 => Some(0),
@@ -511,7 +769,21 @@ fn gen_raw(rng: &mut Rng, tier: Tier) -> Raw {
     let threads = if plateau && threads.len() < 2 { vec![0, 2, 0] } else { threads };
     let arr = (0..rng.below(total + 2)).map(|_| rng.below(64)).collect();
     let hp = (0..rng.below(24)).map(|_| rng.below(64)).collect();
-    let dfile = gen_dfile(rng);
+    let mut dfile = gen_dfile(rng).into_bytes();
+    // a dictionary file is bytes too: `load` must refuse a line that is not UTF-8; BOM and NUL are part of a key
+    match rng.below(40) {
+        0 | 1 => {
+            let pos = boundary(rng, &dfile);
+            let ins = *rng.pick(INVALID);
+            insert_at(&mut dfile, pos, ins);
+        }
+        2 => insert_at(&mut dfile, 0, &[0xEF, 0xBB, 0xBF]),
+        3 => {
+            let pos = boundary(rng, &dfile);
+            insert_at(&mut dfile, pos, &[0]);
+        }
+        _ => {}
+    }
     let nq = rng.range(1, 4);
     let queries = (0..nq)
         .map(|_| (rng.pick(QUERIES).to_string(), rng.chance(1, 2)))
@@ -520,7 +792,7 @@ fn gen_raw(rng: &mut Rng, tier: Tier) -> Raw {
     // scale stream for `load` / `get_closest`: a dictionary of 1100..3300 short keys with few distinct frequencies, so that
     // every query has many entries at the minimal distance, with different frequencies, spread over the whole map
     // (an answer computed piecewise — chunks, parallel partial results — must still be the most frequent of ALL ties)
-    let (dfile, queries): (String, Vec<(String, bool)>) = if rng.chance(1, 250) {
+    let (dfile, queries): (Vec<u8>, Vec<(String, bool)>) = if rng.chance(1, 250) {
         let alpha: Vec<char> = "abcdef".chars().collect();
         let want = rng.range(1100, 3300);
         let mut keys: Vec<String> = vec![];
@@ -539,7 +811,7 @@ fn gen_raw(rng: &mut Rng, tier: Tier) -> Raw {
         }
         let qs = ["ab", "abx", "xyz", "abcdex", "a", "fedcba", "bbbbbbb", "ca fe"];
         let queries = (0..rng.range(2, 5)).map(|_| (rng.pick(&qs[..]).to_string(), rng.chance(1, 2))).collect();
-        (f, queries)
+        (f.into_bytes(), queries)
     } else {
         (dfile, queries)
     };
@@ -566,7 +838,7 @@ impl Prop for C20 {
         let paths = self.write_files(&r);
         let dict_path = self.dir.join("dict.txt");
         let saved_path = self.dir.join("saved.txt");
-        std::fs::write(&dict_path, r.dfile.as_bytes()).expect("write dict file");
+        std::fs::write(&dict_path, &r.dfile).expect("write dict file");
         let mut tags: Vec<String> = vec![];
         let mut first: Option<Dictionary> = None;
         let mut creates = vec![];
@@ -607,11 +879,18 @@ impl Prop for C20 {
                     } else {
                         DictionaryDistanceMeasure::EditDistance
                     };
-                    let g = d.get(q).map(|(f, _)| f);
+                    let g = d.get(q);
                     let c = d.get_closest(q, m);
+                    // the distances `get_closest` works on: the very call it makes, keys in the order of `items()`
+                    // (= the order of `&self.inner`: same map, not modified in between)
+                    let nq = normalize(q, Normalization::NFKC, true);
+                    let keys: Vec<&str> = d.items().map(|(k, _)| k.as_str()).take(256).collect();
+                    let a: Vec<&str> = keys.iter().map(|_| nq.as_str()).collect();
+                    let ds = text_utils::edit::distances(&a, &keys, true, false, false, *norm).unwrap_or_default();
                     answers.push(Val::L(vec![
-                        Val::opt(g, Val::u),
-                        Val::opt(c, |(t, f, _)| Val::L(vec![bytes(&t), Val::u(f)])),
+                        Val::opt(g, |(f, rel)| Val::L(vec![Val::u(f), f64_val(rel)])),
+                        Val::opt(c, |(t, f, rel)| Val::L(vec![bytes(&t), Val::u(f), f64_val(rel)])),
+                        Val::L(ds.into_iter().map(f64_val).collect()),
                     ]));
                 }
             }
@@ -644,7 +923,29 @@ impl Prop for C20 {
             }
             .into(),
         );
-        let counted: usize = r.files.iter().map(|f| f.1.len()).sum::<usize>().min(r.max_seq.unwrap_or(usize::MAX));
+        let counted: usize =
+            r.files.iter().map(|fb| lossy_lines(fb).len()).sum::<usize>().min(r.max_seq.unwrap_or(usize::MAX));
+        if r.files.iter().any(|fb| has_invalid_line(fb)) {
+            tags.push("invalid-utf8".into());
+        }
+        if r.files.iter().any(|fb| fb.windows(2).any(|w| w == b"\r\n")) {
+            tags.push("crlf".into());
+        }
+        if r.files.iter().any(|fb| fb.starts_with(&[0xEF, 0xBB, 0xBF])) {
+            tags.push("bom".into());
+        }
+        if r.files.iter().any(|fb| fb.contains(&0)) {
+            tags.push("nul".into());
+        }
+        if r.files.iter().any(|fb| !fb.is_empty() && fb.last() != Some(&b'\n')) {
+            tags.push("no-final-nl".into());
+        }
+        if r.files.iter().any(|fb| fb.split(|b| *b == b'\n').any(|l| l.len() > 8192)) {
+            tags.push("longline".into());
+        }
+        if std::str::from_utf8(&r.dfile).is_err() {
+            tags.push("dfile-invalid".into());
+        }
         if let Some(d) = &first {
             let n = d.len();
             match r.max_size {
@@ -683,7 +984,7 @@ impl Prop for C20 {
             }
         }
         // ties in get_closest (tagging only): several keys at minimal distance / with equal top frequency
-        if let Ok(s) = std::str::from_utf8(r.dfile.as_bytes()) {
+        if let Ok(s) = std::str::from_utf8(&r.dfile) {
             let entries: Vec<(&str, usize)> = s
                 .lines()
                 .filter_map(|l| {
@@ -808,7 +1109,7 @@ fn exhaustive_raws() -> Vec<Raw> {
                         };
                         let files = files
                             .into_iter()
-                            .map(|(nl, l)| (nl || l.last().map_or(true, |s: &String| s.is_empty()), l))
+                            .map(|(nl, l)| join_lines(&l, nl || l.last().map_or(true, |s: &String| s.is_empty())))
                             .collect();
                         let r = Raw {
                             chars,
@@ -819,7 +1120,7 @@ fn exhaustive_raws() -> Vec<Raw> {
                             files,
                             arr: vec![k % 3, k % 2],
                             hp: vec![k % 5, k % 3, 1],
-                            dfile: dfiles[k % dfiles.len()].clone(),
+                            dfile: dfiles[k % dfiles.len()].clone().into_bytes(),
                             queries: queries.clone(),
                             probes: vec![],
                         };
@@ -843,7 +1144,7 @@ fn exhaustive_raws() -> Vec<Raw> {
                     files: vec![],
                     arr: vec![],
                     hp: vec![],
-                    dfile: String::new(),
+                    dfile: Vec::new(),
                     queries: vec![],
                     probes,
                 };
